@@ -14,6 +14,8 @@
     their arrival order, the re-split of the forward graph and [MergeDedupPairs] of
     [symmetrize_sorted_par], the [NodeLabels] lender with its assertions. *)
 From WG Require Import Base.Prelude Par.Splice.
+
+Module XformM.
 Local Open Scope N_scope.
 
 (** * Pairs and orders *)
@@ -418,3 +420,7 @@ Definition kdedup (l : list (@lpair L)) : list (@lpair L) :=
   match l with [] => [] | x :: l' => x :: kdedup_from (fst x) l' end.
 Definition ksortd (l : list (@lpair L)) : list (@lpair L) := kdedup (ksort l).
 End KeySort.
+
+
+End XformM.
+Export XformM.
